@@ -162,7 +162,10 @@ def h_direct(ctx, transport, raw, good, nsense, reuse=False, first_raw=None):
     for _ in range(good):
         dev.execute(Inquiry(dev.opcodes.INQUIRY, alloclen=8))
     target = s if s is not None else dev
+    n0 = len(env.ENV.sgio_calls) + len(env.ENV.iscsi_tasks)
     st, r = ctx.attempt(target.execute, cmd, en_raw_sense=raw)
+    ctx.check("the command goes to the binding exactly once, whatever its outcome (no silent re-send)",
+              len(env.ENV.sgio_calls) + len(env.ENV.iscsi_tasks) - n0 == ctx.oracle(1))
     _judge(ctx, transport, sc, dev, st, r, raw, lambda: cmd)
 
 
@@ -183,7 +186,10 @@ def h_facade(ctx, transport, cmd, good, nsense):
         seen.append((c, en_raw_sense))
         return orig(c, en_raw_sense=en_raw_sense)
     dev.execute = spy
+    n0 = len(env.ENV.sgio_calls) + len(env.ENV.iscsi_tasks)
     st, r = ctx.attempt(K.facade_concrete_call, s, spec)
+    ctx.check("the command goes to the binding exactly once, whatever its outcome (no silent re-send)",
+              len(env.ENV.sgio_calls) + len(env.ENV.iscsi_tasks) - n0 == ctx.oracle(1))
     ctx.check("the facade hands the command to the device exactly once", len(seen) == ctx.oracle(1), str(len(seen)))
     if not seen:
         if st == "exc":
